@@ -36,20 +36,20 @@ func (w *world) registryTxs() []txT {
 	var ts []txT
 	n0 := k.Nodes[0]
 	// re-registration of node 0 with a later expiration (valid)
-	ts = append(ts, nodeTx("node0-renew(exp6)", k.NodeDescriptor(0, 0, 6, node.RoleValidator), k.NodeSigners(0), n0.NodeSigner))
+	ts = append(ts, nodeTx("node0-renew(exp6)", k.NodeDescriptor(0, 0, 13, node.RoleValidator), k.NodeSigners(0), n0.NodeSigner))
 	// signed by the entity key instead of the node key
-	ts = append(ts, nodeTx("node0-renew tx-signed-by-entity", k.NodeDescriptor(0, 0, 6, node.RoleValidator), k.NodeSigners(0), k.Entities[0]))
+	ts = append(ts, nodeTx("node0-renew tx-signed-by-entity", k.NodeDescriptor(0, 0, 13, node.RoleValidator), k.NodeSigners(0), k.Entities[0]))
 	// signed by another node
-	ts = append(ts, nodeTx("node0-renew tx-signed-by-node1", k.NodeDescriptor(0, 0, 6, node.RoleValidator), k.NodeSigners(0), k.Nodes[1].NodeSigner))
+	ts = append(ts, nodeTx("node0-renew tx-signed-by-node1", k.NodeDescriptor(0, 0, 13, node.RoleValidator), k.NodeSigners(0), k.Nodes[1].NodeSigner))
 	// descriptor missing each one signature in turn
 	for i, nm := range []string{"node", "p2p", "consensus", "vrf", "tls"} {
 		all := k.NodeSigners(0)
 		sg := append(append([]signature.Signer{}, all[:i]...), all[i+1:]...)
-		ts = append(ts, nodeTx("node0-renew missing-sig-"+nm, k.NodeDescriptor(0, 0, 6, node.RoleValidator), sg, n0.NodeSigner))
+		ts = append(ts, nodeTx("node0-renew missing-sig-"+nm, k.NodeDescriptor(0, 0, 13, node.RoleValidator), sg, n0.NodeSigner))
 	}
 	// key exchanges among the node's own keys
 	swap := func(name string, f func(d *node.Node)) {
-		d := k.NodeDescriptor(0, 0, 6, node.RoleValidator)
+		d := k.NodeDescriptor(0, 0, 13, node.RoleValidator)
 		f(d)
 		ts = append(ts, nodeTx(name, d, k.NodeSigners(0), n0.NodeSigner))
 	}
@@ -60,24 +60,24 @@ func (w *world) registryTxs() []txT {
 	swap("node0 p2p=node1.p2p (unsigned by it)", func(d *node.Node) { d.P2P.ID = k.Nodes[1].P2PSigner.Public() })
 	// keys of another registered node, with that key's signature (one operator controls both nodes)
 	{
-		d := k.NodeDescriptor(0, 0, 6, node.RoleValidator)
+		d := k.NodeDescriptor(0, 0, 13, node.RoleValidator)
 		d.P2P.ID = k.Nodes[1].P2PSigner.Public()
 		ts = append(ts, nodeTx("node0 p2p=node1.p2p", d, []signature.Signer{n0.NodeSigner, k.Nodes[1].P2PSigner, n0.ConsensusSigner, n0.VRFSigner, n0.TLSSigner}, n0.NodeSigner))
-		d2 := k.NodeDescriptor(0, 0, 6, node.RoleValidator)
+		d2 := k.NodeDescriptor(0, 0, 13, node.RoleValidator)
 		d2.VRF.ID = k.Nodes[1].VRFSigner.Public()
 		ts = append(ts, nodeTx("node0 vrf=node1.vrf", d2, []signature.Signer{n0.NodeSigner, n0.P2PSigner, n0.ConsensusSigner, k.Nodes[1].VRFSigner, n0.TLSSigner}, n0.NodeSigner))
-		d3 := k.NodeDescriptor(0, 0, 6, node.RoleValidator)
+		d3 := k.NodeDescriptor(0, 0, 13, node.RoleValidator)
 		d3.TLS.PubKey = k.Nodes[2].TLSSigner.Public()
 		ts = append(ts, nodeTx("node0 tls=node2.tls", d3, []signature.Signer{n0.NodeSigner, n0.P2PSigner, n0.ConsensusSigner, n0.VRFSigner, k.Nodes[2].TLSSigner}, n0.NodeSigner))
 	}
 	swap("node0 p2p=own tls (duplicate)", func(d *node.Node) { d.P2P.ID = d.TLS.PubKey })
 	// fresh keys for one role (spare identity 4 provides unused keys)
 	{
-		d := k.NodeDescriptor(0, 0, 6, node.RoleValidator)
+		d := k.NodeDescriptor(0, 0, 13, node.RoleValidator)
 		d.P2P.ID = k.Nodes[4].P2PSigner.Public()
 		sg := []signature.Signer{n0.NodeSigner, k.Nodes[4].P2PSigner, n0.ConsensusSigner, n0.VRFSigner, n0.TLSSigner}
 		ts = append(ts, nodeTx("node0 fresh p2p key", d, sg, n0.NodeSigner))
-		d2 := k.NodeDescriptor(0, 0, 6, node.RoleValidator)
+		d2 := k.NodeDescriptor(0, 0, 13, node.RoleValidator)
 		d2.Consensus.ID = k.Nodes[4].ConsensusSigner.Public()
 		sg2 := []signature.Signer{n0.NodeSigner, n0.P2PSigner, k.Nodes[4].ConsensusSigner, n0.VRFSigner, n0.TLSSigner}
 		ts = append(ts, nodeTx("node0 new consensus key (forbidden)", d2, sg2, n0.NodeSigner))
